@@ -26,6 +26,10 @@ structure FactsSoap where
   /-- `Soap11.serialize` treats a tuple assigned to `ctx.out_header` as the sequence of header objects
       (like a list); otherwise the tuple is handed to the first header class as one object -/
   outHeaderTupleOk : Bool
+  /-- a method that is not wrapped and declares no return value answers with its member-less response class
+      as an EMPTY ELEMENT `<xResponse/>` (what the published schema declares); otherwise the `None` the
+      function returned goes through null_to_parent: `<xResponse xsi:nil="true"/>` -/
+  bareNothingIsEmptyElement : Bool
   deriving Repr, DecidableEq
 
 /-- the service's methods: request tag key `{tns}name` ↦ the in-message class -/
@@ -202,15 +206,21 @@ def outObject (outMsg : Ty) (rets : List Val) : Val :=
   | .obj name _ _ fields _ => .obj name (fields.zipWith (fun f v => (f.1, v)) (rets ++ List.replicate fields.length Val.none))
   | _ => .none
 
+/-- `XmlDocument._bare_response`: nothing returned for a member-less response class is the empty instance -/
+def bareReturn (S : FactsSoap) (outMsg : Ty) (v : Val) : Val :=
+  match outMsg, v with
+  | .obj name _ _ [] _, .none => if S.bareNothingIsEmptyElement then .obj name [] else .none
+  | _, w => w
+
 /-- the body entry of the response: the wrapper object `{tns}<out message>` with one member per return
     value, or — for the non-wrapped styles — the single return value itself as `{tns}<out name>` -/
-def responseNodes (F : Facts08) (cfg : Cfg) (I : Iface) (style : Style) (outName : Text) (outMsg : Ty)
+def responseNodes (F : Facts08) (S : FactsSoap) (cfg : Cfg) (I : Iface) (style : Style) (outName : Text) (outMsg : Ty)
     (rets : List Val) : List Node :=
   if style.outWrapped then
     (match outMsg with
      | .obj name _ _ _ _ => toParent F cfg I I.tns name outMsg (outObject outMsg rets)
      | _ => [])
-  else toParent F cfg I I.tns outName outMsg (rets.headD .none)
+  else toParent F cfg I I.tns outName outMsg (bareReturn S outMsg (rets.headD .none))
 
 end Soap
 end SpyneModel
